@@ -174,16 +174,24 @@ theorem gen_write (v : View) (d : List Nat) :
   by_cases h1 : (d.length : Int) > v.available <;> simp only [h1, if_true, if_false, List.nil_append]
   · rw [pySlice_prefix, length_bytesInt]
     by_cases h3 : (pyPrefix d v.available).length = 0
-    · have : ((pyPrefix d v.available).length : Int) = 0 := by omega
-      simp [h3, this]
-    · have : ¬ ((pyPrefix d v.available).length : Int) = 0 := by omega
-      simp [h3, this]
+    · rw [if_pos h3]
+      split
+      · rfl
+      · exfalso; omega
+    · rw [if_neg h3]
+      split
+      · exfalso; omega
+      · rfl
   · rw [length_bytesInt]
     by_cases h3 : d.length = 0
-    · have : (d.length : Int) = 0 := by omega
-      simp [h3, this]
-    · have : ¬ (d.length : Int) = 0 := by omega
-      simp [h3, this]
+    · rw [if_pos h3]
+      split
+      · rfl
+      · exfalso; omega
+    · rw [if_neg h3]
+      split
+      · exfalso; omega
+      · rfl
 
 /-- non-vacuity: a concrete view, sliced -/
 example : PyFun.SlicedMemoryIO_getitem 100 200 0 (some 10, some (-20), none) = .ok ((110, 180), 100, 200, 0) := by
